@@ -951,7 +951,35 @@ func (rt *runtime) panicStoreError(err error) *exception {
 	return rt.panicTypeError(strings.TrimPrefix(msg, "TypeError: "))
 }
 
+// canonicalIntegerName reports whether name is the decimal spelling Go prints
+// for an integer: only that property name denotes the key ("010", "0x10", "+8",
+// "1_6" are other names although ParseInt with base 0 reads them).
+func canonicalIntegerName(name string) bool {
+	digits := strings.TrimPrefix(name, "-")
+	if digits == "" || (digits[0] == '0' && name != "0") {
+		return false
+	}
+	for _, c := range digits {
+		if c < '0' || c > '9' {
+			return false
+		}
+	}
+	return true
+}
+
 func stringToReflectValue(value string, kind reflect.Kind) (reflect.Value, error) {
+	switch kind {
+	case reflect.Int, reflect.Int8, reflect.Int16, reflect.Int32, reflect.Int64,
+		reflect.Uint, reflect.Uint8, reflect.Uint16, reflect.Uint32, reflect.Uint64:
+		if !canonicalIntegerName(value) {
+			return reflect.Value{}, fmt.Errorf("TypeError: %q is not the name of an integer key", value)
+		}
+	case reflect.Bool:
+		if value != "true" && value != "false" {
+			return reflect.Value{}, fmt.Errorf("TypeError: %q is not the name of a bool key", value)
+		}
+	}
+
 	switch kind {
 	case reflect.Bool:
 		value, err := strconv.ParseBool(value)
